@@ -163,10 +163,16 @@ impl CKBProtocolHandler for RelayProtocol {
             .unwrap()
             .is_not_empty_and_updated_at(60)
         {
-            let peer_id = nc
+            // The session may already be gone when this event is handled.
+            let peer_id = if let Some(peer_id) = nc
                 .get_peer(peer)
                 .and_then(|p| extract_peer_id(&p.connected_addr))
-                .unwrap();
+            {
+                peer_id
+            } else {
+                debug!("peer={} is not connected any more, ignore", peer);
+                return;
+            };
             let tx_hashes = self
                 .pending_txs
                 .write()
